@@ -2,7 +2,10 @@ package main
 
 import (
 	"fmt"
+	"go/types"
 	"strings"
+
+	"golang.org/x/tools/go/ssa"
 )
 
 func init() {
@@ -65,3 +68,43 @@ func runCatalog(g *Gen, id string, all []*catOblig) auxResult {
 }
 
 var knownText = map[string]string{}
+
+func init() {
+	// C09: ast.BadNode is allocated only by the four recovery handlers (each of which records exactly
+	// one error first: proved by their contracts).
+	auxEngines["C09"] = func(g *Gen, id, tier string) auxResult {
+		res := auxResult{}
+		for _, name := range sortedKeys(g.funcs) {
+			fn := g.funcs[name]
+			if fn.Pkg == nil || fn.Pkg.Pkg.Name() != "memefish" || len(fn.Blocks) == 0 {
+				continue
+			}
+			for _, b := range fn.Blocks {
+				for _, in := range b.Instrs {
+					al, ok := in.(*ssa.Alloc)
+					if !ok {
+						continue
+					}
+					t := al.Type().Underlying().(*types.Pointer).Elem()
+					if typeTagName(t) != "ast.BadNode" {
+						continue
+					}
+					res.obligations++
+					oname := fmt.Sprintf("%s/badnode-alloc@%s", name, "handler")
+					if strings.Contains(name, ".handleParse") && strings.HasSuffix(name, "Error") {
+						res.discharged++
+						if len(res.samples) < 4 {
+							res.samples = append(res.samples, oname+": allocation of ast.BadNode inside a recovery handler -> ok")
+						}
+						continue
+					}
+					res.violations++
+					pos := g.prog.Fset.Position(al.Pos())
+					path := writeReplayText(id, sanitize(oname), fmt.Sprintf("property: %s\nobligation: %s\nast.BadNode is allocated outside the recovery handlers at %s:%d; the error accounting (one recorded error per Bad node) only covers the handlers\nno-failing-input-found\n", id, oname, shortFile(pos.Filename), pos.Line))
+					fmt.Printf("VIOLATION property=%s replay=%s no-failing-input-found\n  ast.BadNode allocated in %s at %s:%d\n", id, path, name, shortFile(pos.Filename), pos.Line)
+				}
+			}
+		}
+		return res
+	}
+}
